@@ -1349,12 +1349,24 @@ func (s *State) evalIntegerInfixExpression(operator token.Type, leftVal, rightVa
 	case token.ASTERISK:
 		return object.Integer{Value: leftVal * rightVal}
 	case token.SLASH:
+		if rightVal == 0 {
+			return s.NewError("division by zero")
+		}
 		return object.Integer{Value: leftVal / rightVal}
 	case token.PERCENT:
+		if rightVal == 0 {
+			return s.NewError("division by zero")
+		}
 		return object.Integer{Value: leftVal % rightVal}
 	case token.LEFTSHIFT:
+		if rightVal < 0 {
+			return s.NewError("negative shift count")
+		}
 		return object.Integer{Value: leftVal << rightVal}
 	case token.RIGHTSHIFT:
+		if rightVal < 0 {
+			return s.NewError("negative shift count")
+		}
 		return object.Integer{Value: int64(uint64(leftVal) >> rightVal)} //nolint:gosec // we want to be able to shift the hight bit.
 	case token.BITAND:
 		return object.Integer{Value: leftVal & rightVal}
